@@ -124,6 +124,15 @@ def runner(rep, tier, seed, replay):
         jobs.append({"entry": "c", "text": line, "timeout": 6, "want_files": False, "env": {"HOME": "/vhome/u"}})
         exp = {"home": ["/vhome/u"], "home-slash": ["/vhome/u/a"], "literal": [w], "quoted": [w.strip("'\"")]}.get(kind)
         meta.append(("tilde", kind, line, ["L"], ["R"], exp or [w], {"t": w, "feat": {"tilde": kind}}, kind == "other-user", None))
+        if kind in ("home", "home-slash", "literal", "quoted"):
+            # the same word after quoted arguments and next to other expansion words (the relative order of the words is kept)
+            for fmt, b, a in (("vpa 'q r' %s", ["q r"], []), ('vpa "x" `vpa` %s z', ["x", ""], ["z"]), ("vpa {a,b} 'q' %s ~", ["a", "b", "q"], ["/vhome/u"]),
+                              ("vpa %s \"$HOME\" '~'", [], ["/vhome/u", "~"])):
+                if "`" in fmt:
+                    continue        # (an empty substitution result may vanish: not the subject here)
+                line2 = fmt % w
+                jobs.append({"entry": "c", "text": line2, "timeout": 6, "want_files": False, "env": {"HOME": "/vhome/u"}})
+                meta.append(("tilde", kind + "+ctx", line2, b, a, exp or [w], {"t": w, "feat": {"tilde": kind, "ctx": True}}, False, None))
     # ---- pairs: two expansion words of different kinds in one command (the words of the line keep their relative order; an
     # expansion of one word must not disturb its neighbour) - the second word never is a glob, so one population suffices
     single = [m for m in meta if not m[7] and m[0] in ("brace", "range", "glob", "bglob") and (m[0] != "brace" or "{" in m[6]["t"])]
